@@ -62,3 +62,36 @@ package clusters
 //@ interface (EndpointPicker).Pop(p) props C05, C04
 //@   modifies smap(&unbox(p, "*endpointPickStrategy").cluster.loadbalancer), cells("uint64"), popfailed
 //@   ensures (result1 == nil ==> result != nil && popfailed == old(popfailed)) && (result1 != nil ==> result == nil && popfailed == old(popfailed) + 1)
+
+//@ interface (Manager).Get(m, name) props C10
+//@   pure
+//@   ensures result1 == (reg[m][toLower(name)] != nil) && result == reg[m][toLower(name)]
+//@ interface (Manager).AddWithKey(m, key, cluster) props C10
+//@   modifies reg[m]
+//@   ensures (cluster != nil ==> reg[m] == store(old(reg[m]), toLower(key), cluster)) && (cluster == nil ==> reg[m] == old(reg[m]))
+//@ interface (Manager).Delete(m, name) props C10
+//@   modifies reg[m]
+//@   ensures reg[m] == store(old(reg[m]), toLower(name), nil)
+//@ interface (Manager).DeleteWithStop(m, name) props C10, C15
+//@   modifies reg[m], stopped[reg[m][toLower(name)]]
+//@   ensures reg[m] == store(old(reg[m]), toLower(name), nil) && (old(reg[m][toLower(name)]) != nil ==> stopped[old(reg[m][toLower(name)])])
+
+//@ const MC = &m.clusters
+
+//@ func (*manager).Get props C10
+//@   pure
+//@   ensures [lookup] result1 == smhas(MC, box(toLower(name))) && (result1 ==> result == unbox(smget(MC, box(toLower(name))), "*ClusterInfo")) && (!result1 ==> result == nil)
+
+//@ func (*manager).AddWithKey props C10
+//@   modifies smap(&m.clusters)
+//@   ensures [stored] cluster != nil ==> smhas(MC, box(toLower(key))) && smget(MC, box(toLower(key))) == box(cluster)
+//@   ensures [frame] forall k string :: {smhas(MC, box(k))} k != toLower(key) || cluster == nil ==> smhas(MC, box(k)) == old(smhas(MC, box(k))) && smget(MC, box(k)) == old(smget(MC, box(k)))
+
+//@ func (*manager).doDelete props C10, C15
+//@   modifies *
+//@   ensures [removed] !smhas(MC, box(toLower(name)))
+
+//@ func (*ClusterInfo).LoadServerNames props C10
+//@   trusted "result is serverNamesOf(c): [c.Cluster] ++ lower-cased server names of the stored secure-serving config"
+//@   pure
+//@   ensures result == serverNamesOf(c) && len(result) >= 1 && result[0] == c.Cluster
